@@ -66,6 +66,10 @@ CHECKS['C18'] = pure('SplitContract.tla / SplitGen.tla', 'Exhaustive within boun
     'generator sources, plus random configurations up to length 7; clauses C18_Partition, C18_SourceOnce, C18_PredicateOnce, C18_Lazy, C18_Exhaust.')
 CHECKS['C20'] = pure('GatherContract.tla / GatherGen.tla', 'Exhaustive within bounds: every list of 0..2 (quick) / 0..3 (thorough) awaitables with delay in {0,1,2} and outcome over the '
     'exception hierarchy, every `only`, both functions, plus random lists of up to 5, run in virtual time; clauses C20_AllRun, C20_ExactlyFiltered, C20_InputOrder, C20_RaiseFirst, C20_NoneWhenEmpty.')
+CHECKS['C19'] = pure('ParseContract.tla / ParseGen.tla', 'Exhaustive for item lists of length 0..1 over 21 string fragment classes and 3 non-string objects in all shapes, parse_keys on/off, '
+    'default and raising parser, separators of length 1..2; random item lists of length 2..4; the actual result is abstracted back to fragment classes through a hand-written table (independent of '
+    'ast.literal_eval) and compared by TLC with the transcribed rules (split at first separator, later pair wins, ValueError without separator, non-strings untouched); a trip-wire object counts '
+    'any evaluation. The universal no-evaluation claim is checked over this fragment grammar only.')
 PENDING_REASON = 'check not built yet in this session (planned: see DESIGN.md §5); not a claim that the technique cannot apply'
 PENDING = {('C%02d' % i): PENDING_REASON for i in range(1, 21)}
 ENGINES = [
